@@ -173,6 +173,9 @@ def monitors(h):
             if sid and sid in post_s:
                 bad.append(("client-cert-session-stored", i, "server stored a session established with a client certificate"))
         # observations (not statements of the property)
+        if any(a.get("wrapped") and a["desc"] != 50 for a in c["alerts"]):
+            note("fatal alert sent as an UNPROTECTED tls12_cid record (connection ids already committed); the peer "
+                 "rejects it as 'invalid content type', answers decode_error and drops its own session")
         for o in c["ops_c"]:
             if o["op"] == "del" and o["key"] != c["key"]:
                 note("flight3Parse DelSession(session id) on the client store (keyed by address_name)")
@@ -270,11 +273,13 @@ HOW = ("harness/overlay/root/zz_verif_c14_test.go: one client and one server sha
        "`step.bh` side that carries a ChangeCipherSpec, and applies `step.mask` per emitted datagram index")
 
 
-def run(chk):
+def run(chk, script=None):
     proved = chk.prove(extra_targets=["theories/Hs/C14Run.vo"])
     out = vlib.out_path("c14")
-    rc, o = vlib.go_test(".", "^TestVerifC14$", {"VERIF_SEED": chk.seed, "VERIF_TIER": chk.tier, "VERIF_OUT": out},
-                         tags=["c14"], timeout=3000)
+    env = {"VERIF_SEED": chk.seed, "VERIF_TIER": chk.tier, "VERIF_OUT": out}
+    if script:
+        env["VERIF_C14_SCRIPT"] = script
+    rc, o = vlib.go_test(".", "^TestVerifC14$", env, tags=["c14"], timeout=3000)
     hists = vlib.read_jsonl(out)
     vlib.cleanup(out)
     found = False
@@ -345,6 +350,21 @@ def run(chk):
                           "ChangeCipherSpec flight; all masks over {pass,drop,dup,hold:1}^3 on the three datagrams of the "
                           "abbreviated handshake; CID lengths per connection; other suite / address / server name; "
                           "client authentication")
+    # probe outside the model's assumptions: one forged plaintext record (recorded, not judged)
+    if not script:
+        outp = vlib.out_path("c14inj")
+        rci, oi = vlib.go_test(".", "^TestVerifC14Inject$", dict(env, VERIF_OUT=outp), tags=["c14"], timeout=600)
+        inj = vlib.read_jsonl(outp)
+        vlib.cleanup(outp)
+        if rci != 0:
+            chk.broken("probe TestVerifC14Inject no longer runs against /repo (%s)" % vlib.classify_go_failure(oi), oi)
+        chk.count("forged-record-probe", len(inj), [j["to"] for j in inj if j["alerts"]])
+        chk.leg_info("forged-record-probe", what="ONE forged 14-byte epoch-0 record with content type 99 delivered during a "
+                     "resumed handshake (not covered by the model: it assumes unmodified datagrams)",
+                     observed=[{"to": j["to"], "c_out": j["c_out"], "s_out": j["s_out"], "wire": j["wire"],
+                                "receiver_deleted_its_session": any(o["op"] == "del" and o["hit"] for o in
+                                                                    (j["ops_c"] if j["to"] == "client" else j["ops_s"]))}
+                               for j in inj])
     if not proved and not found:
         where, pout = getattr(chk, "proof_error", ("?", ""))
         chk.broken("proof obligation Properties/C14.v no longer checks (%s)" % where, pout)
@@ -367,3 +387,22 @@ def run(chk):
         explanation="See evidence legs.histories.observations_not_part_of_the_property for behaviour that the property "
                     "permits but a reader may not expect (mismatch = silent stall and permanent lock-out; DelSession "
                     "under the wrong key; callbacks skipped on resumption).")
+
+
+def replay(chk, path):
+    """Re-run ONE recorded history: the replay file (or any JSON with `variant` and `steps`, or with
+    `replay.history`) gives the per-connection scripts; the harness runs exactly that history against
+    the current tree and the monitors and the model comparison judge it again."""
+    import json
+    import os
+    with open(path) as f:
+        body = json.load(f)
+    h = body.get("replay", {}).get("history") or body.get("history") or body
+    script = {"variant": h["variant"], "steps": h.get("steps") or [c["step"] for c in h["conns"]]}
+    sp = os.path.join(vlib.WORK, "c14script.%d.json" % os.getpid())
+    with open(sp, "w") as f:
+        json.dump(script, f)
+    try:
+        run(chk, script=sp)
+    finally:
+        vlib.cleanup(sp)
